@@ -287,6 +287,65 @@ def run(ctx):
                       f"{b.name}: the nested type of the `{arm}` arm is rendered through {how}: inside a set item or map key an f64 below it is emitted as plain f64, which is not Ord, so the generated BTreeSet/BTreeMap does not compile "
                       "(e.g. set<map<string, double>>)", instance=f"{b.name}: `{arm}` descends with {how}")
         ctx.floor("R3.5", "nested-type descents of the type renderer", n, 6)
+    # ---------------- R3.10 the generated crate's manifest declares every runtime crate the emitted code names
+    # decision table of write_cargo_toml over (types?, errors?, services?) against the crate roots that the templates of the
+    # corresponding generator modules mention (`conjure_object::..`, `conjure_error::..`, `conjure_http::..`)
+    tm_ = F.tmpl()
+    wct = [b for b in c.bodies if b.name == "write_cargo_toml" and b.kind == "assoc_fn"]
+    if tm_ is not None and len(wct) == 1:
+        import re as _re2
+        from .. import minterp as _mi
+        KINDS = {"types": ("aliases.rs", "enums.rs", "objects.rs", "unions.rs"), "errors": ("errors.rs",), "services": ("clients.rs", "servers.rs")}
+        need = {k: set() for k in KINDS}
+        for fn in tm_["functions"]:
+            for k, files in KINDS.items():
+                if any(fn["file"].endswith("conjure-codegen/src/" + f_) for f_ in files):
+                    for q in fn["quotes"]:
+                        for m_ in _re2.findall(r"\b(conjure_object|conjure_error|conjure_http) ::", q["text"]):
+                            need[k].add(m_.replace("_", "-"))
+        bad, rows = [], 0
+        for combo in range(1, 8):
+            present = {"types": bool(combo & 1), "errors": bool(combo & 2), "services": bool(combo & 4)}
+            inserted = set()
+
+            def oracle(f, argv, present=present, inserted=inserted):
+                nm = f.get("name")
+                if nm == "is_empty" and argv:
+                    txt = _mi.show(I_, argv[0])
+                    for k in present:
+                        if k + "(" in txt:
+                            return not present[k]
+                if nm == "insert" and len(argv) >= 2 and isinstance(argv[1], str):
+                    inserted.add(argv[1])
+                return _mi.NO_VALUE
+            I_ = _mi.Interp(F, c, inline=lambda d_, rid: False)
+            I_.call_oracle = oracle
+            I_.oracle = {"core::result::Result": 0, "core::ops::control_flow::ControlFlow": 0}
+            try:
+                I_.run(wct[0], [("sym", f"a{k}") for k in range(wct[0].argc)])
+            except _mi.Unsupported as e_:
+                bad = None
+                ctx.note(f"R3.10 write_cargo_toml left the interpretable fragment ({e_}); not decided")
+                break
+            rows += 1
+            req = set().union(*[need[k] for k in present if present[k]])
+            if not req <= inserted:
+                bad.append(f"definition with {[k for k in present if present[k]]}: the emitted code names {sorted(req)}, the manifest declares {sorted(inserted)}")
+        if bad is not None:
+            ctx.check(not bad, "R3.10", wct[0].loc(), "write_cargo_toml|dependencies", "write_cargo_toml: " + "; ".join(bad[:3]) + " — the generated crate does not compile without the missing dependency",
+                      instance=f"write_cargo_toml: {rows} rows (types x errors x services), dependencies cover the crates named by the templates {dict((k, sorted(v)) for k, v in need.items())}")
+    # ---------------- R3.9 names taken from a definition are never *parsed* as Rust identifiers: syn's Ident parser refuses
+    # keywords (`type`, `ref`, `match`, ...), which are legal Conjure names; identifiers are built with Ident::new / format_ident!
+    # after escaping (Context::field_name etc.), and path-template parameters are compared as strings
+    nparse = 0
+    for cn_ in ("conjure_macros", "conjure_codegen"):
+        for b in F.crate(cn_).bodies:
+            for bb, t in b.calls():
+                f_ = t["call"]
+                if f_.get("def", "").startswith("syn::") and f_.get("name") == "parse_str" and any((ty_adt(x) or "").endswith("::Ident") for x in f_.get("substs") or []):
+                    nparse += 1
+                    ctx.violation("R3.9", b.loc(t["ln"]), f"{b.path.split('::{closure')[0]}|parses-ident", f"{b.path}: a string is parsed as a Rust identifier (syn::{f_['name']}::<Ident>): definition names that are Rust keywords (type, ref, match, in, ...) or carry a regex suffix are rejected, so code generation fails for a valid definition")
+    ctx.ok("R3.9", "conjure_macros, conjure_codegen", f"{nparse} places parse a definition name as a Rust identifier", nontrivial=False)
     # ---------------- R3.6 layering: only Context resolves aliases / external fallbacks
     # the generator modules decide by Context's predicates (is_optional, is_iterable, is_binary, ...), which look through
     # aliases and external fallbacks; a module that branches on the syntactic kind of an IR `Type` itself disagrees with its
@@ -347,7 +406,10 @@ def run(ctx):
         ctx.check(len(bind) >= 1 and len(uses) >= 1, "R3.7", "conjure-macros/src/endpoints.rs", "safe-params|templates", f"expected the SafeParams binding template and its use template, found {len(bind)} / {len(uses)}", nontrivial=False)
         for fn, q, preds in uses:
             for bfn, bq, bpreds in bind:
-                common = {x for x in preds & bpreds if x.endswith("::safe")}
+                # the per-argument safety predicate of the macro's argument model, under whatever name (`safe() -> bool`,
+                # `safe_log_key() -> Option<..>`): a method of ArgType whose name mentions `safe`
+                safe_paths = {x.path for x in cmac.bodies if x.impl and x.kind == "assoc_fn" and (ty_adt(x.self_ty) or "").endswith("ArgType") and "safe" in x.name}
+                common = {x for x in preds & bpreds if x in safe_paths or x.endswith("::safe")}
                 ctx.check(bool(common), "R3.7", f"{bfn['file'].split('/repo/')[-1]}:{bq['line']}", f"{bfn['name']}|{fn['name']}|binding-and-use-same-predicate",
                           f"macro: `{fn['name']}` emits a use of the safe-params variable under {q['conds']} (reaching {sorted(x.split('::')[-1] for x in preds)}), but `{bfn['name']}` declares the variable under {bq['conds']} (reaching {sorted(x.split('::')[-1] for x in bpreds)}): they must be decided by the same per-argument predicate, otherwise an endpoint for which only the use is emitted expands to code that does not compile",
                           instance=f"binding in {bfn['name']} and use in {fn['name']} both decided by ArgType::safe")
